@@ -3,6 +3,7 @@ mod drive_eval;
 mod drive_ops;
 mod enc;
 mod gen;
+mod gen_untyped;
 mod rng;
 mod run;
 mod zoo;
@@ -41,6 +42,7 @@ fn main() {
                 "c09" => drive_ops::drive_c09(seed, thorough, &mut out),
                 "cmp-table" => drive_ops::cmp_table(&mut out),
                 "c14" => drive_ops::drive_c14(seed, thorough, &mut out),
+                "c02pairs" => drive_ops::drive_c02pairs(seed, thorough, &mut out),
                 _ => panic!("unknown family"),
             };
             out.flush().unwrap();
